@@ -14,7 +14,7 @@ DEFAULT = dict(
     prog_len=[0, 1, 1, 2, 3], p_pause=0.25, p_yield=0.1, p_dispatch=0.25, p_dawait=0.3, p_gap=0.0,
     p_raise=0.0, p_return_exc=0.0, p_redispatch=0.0, p_readbus=0.0, p_burn=0.0,
     max_depth=[1, 2, 2], ncallers=[1, 1, 2, 3], caller_len=[1, 2, 3], p_caller_await=0.7, p_caller_pause=0.3,
-    event_timeout=300.0, short_timeouts=None, p_stall=0.0, shuffle_order=True, rotate_p=0.0,
+    event_timeout=300.0, short_timeouts=None, p_stall=0.08, shuffle_order=True, rotate_p=0.0,
     own_bus_only=False, long_p=0.0, caller_idle_p=0.0, explicit_parent_p=0.0, redispatch_caller_p=0.0,
     results_p=0.0, p_await_any=0.0, p_stop_fault=0.0, p_late=0.0, p_raise_cancelled=0.0,
 )
@@ -226,7 +226,7 @@ def gen_bus(seed: int, knobs: dict, profile: str) -> dict:
 # -----------------------------------------------------------------------------------------
 # Profiles: name -> (knobs)
 # -----------------------------------------------------------------------------------------
-BASE_CLEAN = dict(nb=[1], own_bus_only=True, ncallers=[1], p_caller_await=1.0, p_dispatch=0.0, p_dawait=0.45, shuffle_order=False,
+BASE_CLEAN = dict(nb=[1], own_bus_only=True, p_stall=0.0, ncallers=[1], p_caller_await=1.0, p_dispatch=0.0, p_dawait=0.45, shuffle_order=False,
                   max_depth=[1, 2, 2])
 
 PROFILES = {
@@ -246,6 +246,7 @@ PROFILES = {
     'backlog': dict(nb=[1, 2, 3], ncallers=[2, 3], caller_len=[2, 3, 4], p_caller_await=0.3, p_dawait=0.4, p_gap=0.1),
     'topo': dict(nb=[1, 2, 3, 4, 5], fwd='topo', prog_len=[0, 0, 1, 2], p_dawait=0.15, p_dispatch=0.15),
     'topo_traffic': dict(nb=[2, 3, 4], fwd='topo', ncallers=[2, 3], p_dawait=0.3, p_gap=0.1),
+    'topo_small_history': dict(nb=[2, 3, 4], fwd='topo', max_history=[2, 3, 5, 50], ncallers=[2, 3], caller_len=[3, 4, 5], p_caller_await=0.3, prog_len=[0, 0, 1, 2], p_dawait=0.15, p_late=0.15),
     'topo_redispatch': dict(nb=[2, 3, 4], fwd='topo', ncallers=[1, 2], p_dawait=0.2, p_redispatch=0.15, redispatch_caller_p=0.4),
     'late_reg': dict(nb=[1, 1, 2], p_late=0.5, p_wild=0.6, ntypes=[1, 2], ncallers=[1, 2], caller_len=[3, 4, 5], p_caller_await=0.7, p_caller_pause=0.2),
     'multi_stop': dict(nb=[3, 3, 4], p_stop_fault=1.0, ncallers=[2, 3], caller_len=[2, 3, 4], p_caller_await=0.3, p_pause=0.35, p_dispatch=0.3, p_dawait=0.2),
